@@ -143,19 +143,23 @@ def models(tier, seed):
     shapes = [("u32",), ("u8", "u64"), ("struct", "u32"), ("slice",), ("ptr", "bool", "i32"), ("cb", "usize"), (), ("pp", "u8"), ("i32", "cpp")]
     rets = ["void", "u32", "u64", "bool", "struct", "ptr"]
     recvs = ["ref", "mut", "own"]
-    k = seed % 7
-    for inner, ctx in itertools.product(["Box", "Mut", "Ref"], ["Arc", ""]):
-        ms = []
-        for j in range(3):
-            recv = recvs[(k + j) % 3]
-            if recv == "own" and inner != "Box":
-                recv = "ref"
-            if recv == "mut" and inner == "Ref":
-                recv = "ref"
-            ms.append(M("m%d" % j, recv, shapes[(k + 2 * j) % len(shapes)], rets[(k + j) % len(rets)]))
-        extra.append({"id": "gen_%s_%s" % (inner.lower(), ctx.lower() or "noctx"), "prefix": None,
-                      "traits": [{"name": "Tr", "methods": ms}], "objects": [("Tr", inner, ctx)], "groups": []})
-        k += 1
+    # quick: one rotation of the argument/return shapes (chosen by the seed); thorough: all nine rotations
+    rotations = [seed % 9] if tier != "thorough" else list(range(9))
+    for rot in rotations:
+        k = rot
+        for inner, ctx in itertools.product(["Box", "Mut", "Ref"], ["Arc", ""]):
+            ms = []
+            for j in range(3):
+                recv = recvs[(k + j) % 3]
+                if recv == "own" and inner != "Box":
+                    recv = "ref"
+                if recv == "mut" and inner == "Ref":
+                    recv = "ref"
+                ms.append(M("m%d" % j, recv, shapes[(k + 2 * j) % len(shapes)], rets[(k + j) % len(rets)]))
+            suffix = "" if tier != "thorough" else "_r%d" % rot
+            extra.append({"id": "gen_%s_%s%s" % (inner.lower(), ctx.lower() or "noctx", suffix), "prefix": None,
+                          "traits": [{"name": "Tr", "methods": ms}], "objects": [("Tr", inner, ctx)], "groups": []})
+            k += 1
     # the whole pipeline takes seconds: both tiers use every model; the seed rotates the argument/return shapes of the
     # generated per-container models
     return core + extra
